@@ -30,6 +30,15 @@ def strip_expand(e):
     return e
 
 
+def scales_rates(s2) -> bool:
+    """`self._rates *= X` or `self._rates = self._rates * X` / `X * self._rates`"""
+    if isinstance(s2, ast.AugAssign) and self_attr(s2.target) == '_rates' and isinstance(s2.op, ast.Mult):
+        return True
+    if isinstance(s2, ast.Assign) and len(s2.targets) == 1 and self_attr(s2.targets[0]) == '_rates' and isinstance(s2.value, ast.BinOp) and isinstance(s2.value.op, ast.Mult):
+        return self_attr(s2.value.left) == '_rates' or self_attr(s2.value.right) == '_rates'
+    return False
+
+
 def check_invariant(ctx, rep):
     cls = ctx.classes.get(f"{MOD}.InvariantSiteModel")
     fn = cls.resolve('update_rates_probs')[1]
@@ -47,7 +56,7 @@ def check_invariant(ctx, rep):
             order.append('rates')
         elif isinstance(st, ast.If):
             for s2 in st.body:
-                if isinstance(s2, ast.AugAssign) and self_attr(s2.target) == '_rates' and isinstance(s2.op, ast.Mult) and any(self_attr(x) == '_mu' for x in ast.walk(s2.value)):
+                if scales_rates(s2) and any(self_attr(x) == '_mu' for x in ast.walk(s2.value)):
                     mu_after = 'rates' in order
     if probs is None or rates is None or len(probs) != 2 or len(rates) != 2:
         raise Unsupported(fn, 'cat((…), -1) definitions of probabilities and rates not found')
@@ -114,7 +123,7 @@ def check_discretized(ctx, rep):
             isinstance(st, ast.Assign) and self_attr(st.targets[0]) == pattr for st in inv_if[0].body)
     rep.check('C05.N', 'UnivariateDiscretizedSiteModel.update_rates::probabilities-defined-before-normalisation', ok_order, W, None,
               "with an invariant category the probabilities must be re-defined before they are used to normalise the rates")
-    mu_after = any(isinstance(st, ast.If) and any(isinstance(s2, ast.AugAssign) and self_attr(s2.target) == '_rates' and isinstance(s2.op, ast.Mult) for s2 in st.body)
+    mu_after = any(isinstance(st, ast.If) and any(scales_rates(s2) for s2 in st.body)
                    and norm and fn.body.index(st) > fn.body.index(norm[0]) for st in fn.body)
     rep.check('C05.N', 'UnivariateDiscretizedSiteModel.update_rates::relative-rate-applied-after', mu_after, W, None, "mu must multiply the rates after the normalisation")
     if not inv_if:
@@ -211,6 +220,57 @@ def check_discretized(ctx, rep):
               "Weibull(scale 1) quantile function must be (−log(1−q))^(1/shape) in both branches")
 
 
+def is_fresh(e, fn, depth=0) -> bool:
+    """the expression builds a new tensor (call or arithmetic), it is not another name for stored state"""
+    if isinstance(e, (ast.Call, ast.BinOp, ast.UnaryOp, ast.Constant, ast.IfExp)):
+        if isinstance(e, ast.IfExp):
+            return is_fresh(e.body, fn, depth) and is_fresh(e.orelse, fn, depth)
+        if isinstance(e, ast.Call) and isinstance(e.func, ast.Attribute) and e.func.attr in ('expand', 'view', 'reshape', 'squeeze', 'unsqueeze', 'detach', 'expand_as', 't', 'transpose'):
+            return is_fresh(e.func.value, fn, depth)
+        return True
+    if isinstance(e, ast.Name) and depth < 4:
+        for a in fn.args.args + fn.args.kwonlyargs:
+            if a.arg == e.id:
+                return a.annotation is not None and ast.unparse(a.annotation) in ('int', 'float', 'bool')
+        ds = [d for d in ast.walk(fn) if isinstance(d, ast.Assign) and any(isinstance(t, ast.Name) and t.id == e.id for t in d.targets)]
+        return bool(ds) and all(is_fresh(d.value, fn, depth + 1) for d in ds)
+    return False
+
+
+def check_inplace(ctx, rep):
+    """C05.A — an in-place update (`self.X *= …`, `.mul_()` …) may only hit a tensor built earlier in the same call on every path."""
+    from sa.cfg import CFG
+    mod = ctx.prog.module('torchtree.evolution.site_model')
+    n = 0
+    for cname, cdef in sorted(mod.classes.items()):
+        for fn in [b for b in cdef.body if isinstance(b, ast.FunctionDef)]:
+            sites = []
+            for st in ast.walk(fn):
+                if isinstance(st, ast.AugAssign) and self_attr(st.target):
+                    sites.append((st, self_attr(st.target)))
+                elif isinstance(st, ast.Expr) and isinstance(st.value, ast.Call) and isinstance(st.value.func, ast.Attribute) \
+                        and st.value.func.attr.endswith('_') and not st.value.func.attr.startswith('_') and self_attr(st.value.func.value):
+                    sites.append((st, self_attr(st.value.func.value)))
+            if not sites:
+                continue
+            cfg = CFG(fn)
+            for st, attr in sites:
+                n += 1
+                node = cfg.node_of(st)
+                defs = [d for d in ast.walk(fn) if isinstance(d, ast.Assign) and any(self_attr(t) == attr for t in d.targets)]
+                dnodes = [cfg.node_of(d) for d in defs]
+                covered = cfg.must_pass(cfg.entry, node, dnodes) and bool(dnodes)
+                reaching = [d for d, dn in zip(defs, dnodes) if node.id in cfg.reachable_after(dn, {x.id for x in dnodes if x is not dn})]
+                stale = [norm_text(d)[:70] for d in reaching if not is_fresh(d.value, fn)]
+                rep.check('C05.A', f"{cname}.{fn.name}::in-place-update-of-self.{attr}-hits-a-tensor-built-in-this-call", covered and not stale,
+                          where(mod, st), {'definitions_reaching': [norm_text(d)[:70] for d in reaching], 'defined_on_every_path': covered},
+                          f"`{norm_text(st)[:60]}` modifies self.{attr} in place, but on some path that tensor was not built in this call "
+                          f"({'alias of stored state: ' + '; '.join(stale) if stale else 'no definition on some path'}): the factor accumulates in the cached tensor and the "
+                          f"weighted mean rate drifts from 1 (or mu) on re-evaluation")
+    if n == 0:
+        rep.ok('C05.A', 'site_model::no-in-place-updates', mod.path, {'sites': 0})
+
+
 def run(ctx, rep):
     rep.explanation = (
         "InvariantSiteModel: probabilities and rates are turned into rational functions of the invariant proportion p and Σ prob·rate = 1, Σ prob = 1 "
@@ -221,8 +281,9 @@ def run(ctx, rep):
     )
     rep.rule('C05.I', "invariant model: Σ prob·rate = 1 and Σ prob = 1 as rational identities; zero-rate block aligned with the invariant probability; mu applied after")
     rep.rule('C05.N', "discretised models: rates = X / Σ(X·P) with the reported P, P defined first and summing to one, mid-point quantiles with the branch's K, mu last")
+    rep.rule('C05.A', "in-place updates of cached rates/probabilities only hit a tensor built earlier in the same call on every path (no accumulation across evaluations)")
     rep.not_decided += ["non-negativity for all shapes", "batched shapes", "quantile accuracy"]
-    for f, rule in ((check_invariant, 'C05.I'), (check_discretized, 'C05.N')):
+    for f, rule in ((check_invariant, 'C05.I'), (check_discretized, 'C05.N'), (check_inplace, 'C05.A')):
         try:
             f(ctx, rep)
         except Unsupported as u:
